@@ -14,8 +14,8 @@ use std::collections::BTreeSet;
 use std::sync::{Arc, Mutex};
 use vcore::findings::SigBag;
 
-fn cfg() -> DriverCfg {
-    DriverCfg { dim: 2, metric: "euclidean".into(), auth: true, data_dir: None, hnsw_capacity: 64, snapshot_interval: 0, tenants: vec![("tenant_r".into(), 3, 100)] }
+fn cfg(auth: bool) -> DriverCfg {
+    DriverCfg { dim: 2, metric: "euclidean".into(), auth, data_dir: None, hnsw_capacity: 64, snapshot_interval: 0, tenants: vec![("tenant_r".into(), 3, 100)] }
 }
 
 fn w_item(id: u64, w: u32) -> Item {
@@ -79,8 +79,11 @@ fn worker(wi: usize, wn: usize, tier: &str) {
         vec![Rpc::Delete { t: 0, id: 1, ns: "".into() }, ins(1, 11)],
         vec![Rpc::UpdateMetadata { t: 0, id: 1, m: vec![("u".into(), "1".into())], merge: true, ns: "".into() }, ins(1, 11)],
     ];
-    // initial states: just written (recent-write tier), drained, drained + cached by a point read
-    let inits = ["hot", "cold", "cached"];
+    // initial states: just written (recent-write tier), drained, drained + cached by a point read,
+    // and id 1 not written yet (the handlers' "arrived while I was looking" arms); with and
+    // without authentication (without a tenant the handlers skip the tenant / namespace gate that
+    // otherwise answers not-found from the first snapshot)
+    let inits = ["hot", "cold", "cached", "absent"];
     let mut viol = SigBag::default();
     let (mut programs, mut execs, mut reads, mut incomplete) = (0u64, 0u64, 0u64, 0u64);
     let mut outcomes: BTreeSet<String> = BTreeSet::new();
@@ -88,7 +91,7 @@ fn worker(wi: usize, wn: usize, tier: &str) {
     let mut idx = 0usize;
     for (rname, reader) in &readers {
         for writer in &writers {
-            for init in inits {
+            for (init, auth) in inits.iter().flat_map(|i| [(*i, true), (*i, false)]) {
                 idx += 1;
                 if idx % wn != wi {
                     continue;
@@ -98,8 +101,10 @@ fn worker(wi: usize, wn: usize, tier: &str) {
                 let out = explore(
                     &ecfg,
                     || {
-                        let srv = Arc::new(build(&cfg()));
-                        let _ = rt.block_on(call(&srv, &ins(1, 101)));
+                        let srv = Arc::new(build(&cfg(auth)));
+                        if init != "absent" {
+                            let _ = rt.block_on(call(&srv, &ins(1, 101)));
+                        }
                         let _ = rt.block_on(call(&srv, &ins(2, 102)));
                         if init != "hot" {
                             let _ = rt.block_on(call(&srv, &Rpc::Flush { t: 0 }));
@@ -144,7 +149,7 @@ fn worker(wi: usize, wn: usize, tier: &str) {
                                 if vw != mw {
                                     viol.push((
                                         format!("C05|server|{rname}|vector-and-metadata-from-different-writes"),
-                                        json!({"engine":"srvmc","check":"C05S","reader":rname,"writer":writer,"init":init,"schedule":choices,"preemptions":res.preemptions,
+                                        json!({"engine":"srvmc","check":"C05S","reader":rname,"writer":writer,"init":init,"auth":auth,"schedule":choices,"preemptions":res.preemptions,
                                                "detail":format!("{rname} answered with the vector of write w={vw:?} and the metadata of write w={mw:?}: {a}")}),
                                     ));
                                     return false;
